@@ -21,16 +21,28 @@ def result_buffer(body):
 _DB = [None]
 
 
-def arg_roles(body, a):
-    """(param names reached, literal strings in the slice, waypoint callee short names)"""
+def arg_roles(body, a, frames=()):
+    """(param names reached, literal strings in the slice, waypoint callee short names).
+    frames: call chain of an inlined helper (writes.buffer_events); parameters of the helper are replaced by the roles of the
+    arguments passed at the call site, so the names are always those of the outermost builder"""
     sl = flow.backward(body, a)
-    params = set()
-    for l, pr in sl.params:
-        params.add(body.local_name(l) or "_%d" % l)
     lits = flow.slice_literals(_DB[0], body, sl) if _DB[0] is not None else {c["v"] for c in sl.consts if c.get("c") in ("str", "bstr")}
     items = {short(c["def"]) for c in sl.consts if c.get("c") == "item"}
     way = {short(callee_def(t)) for _, t, _ in sl.calls}
-    return params, lits | items, way
+    lits = set(lits) | items
+    params = set()
+    if frames:
+        caller, term, _ = frames[-1]
+        for l, pr in sl.params:
+            if l - 1 < len(term["args"]):
+                p2, l2, w2 = arg_roles(caller, term["args"][l - 1], frames[:-1])
+                params |= p2
+                lits |= l2
+                way |= w2
+    else:
+        for l, pr in sl.params:
+            params.add(body.local_name(l) or "_%d" % l)
+    return params, lits, way
 
 
 ITER_OPS = {"into_iter", "iter", "next", "new", "push", "split_first", "as_ref", "as_slice", "deref", "as_str", "get_all", "unwrap", "unwrap_or_default", "len",
@@ -62,7 +74,7 @@ def match_event(body, ev, exp):
     if exp["params"] or exp["lits"] or exp["way"]:
         params, lits, way = set(), set(), set()
         for a in ev["args"]:
-            p, l, w = arg_roles(body, a)
+            p, l, w = arg_roles(ev.get("body", body), a, ev.get("frames", ()))
             params |= p
             lits |= l
             way |= w
@@ -86,7 +98,7 @@ def check_layout(chk, db, rule, fn, expected, alt_tail=()):
         chk.anchor_missing(rule, "builder %s not found" % fn)
         return
     buf = result_buffer(b)
-    ev = writes.buffer_events(b, buf, db)
+    ev = writes.buffer_events(b, buf, db, prim={e["callee"] for e in list(expected) + list(alt_tail)})
     key = short(fn) + ("@v2" if "sig_v2" in fn else "")
     n_fixed = len(expected)
     desc = writes.describe(ev)
@@ -244,7 +256,7 @@ def rule_r6_v2(chk, db):
     if b is None:
         raise AnchorMissing("sig_v2 create_string_to_sign not found")
     buf = result_buffer(b)
-    ev = writes.buffer_events(b, buf, db)
+    ev = writes.buffer_events(b, buf, db, prim={"push", "push_str"})
     desc = writes.describe(ev)
     head = V2_STRING_TO_SIGN
     bad = []
@@ -266,7 +278,7 @@ def rule_r6_v2(chk, db):
             continue
         p, l, w = set(), set(), set()
         for a in e["args"]:
-            p2, l2, w2 = arg_roles(b, a)
+            p2, l2, w2 = arg_roles(e.get("body", b), a, e.get("frames", ()))
             p |= p2
             l |= l2
             w |= w2
